@@ -124,6 +124,10 @@ func buildAdmission(seed int64) (*Scenario, error) {
 			slice(h, 6)
 		}
 	}
+	// the rules apply to EVERY transaction of a batch: the forbidden conversion in second place
+	b.TxE(113, -3, "second transaction converts into pFCT", alice, Conv(A, USD, 1000+uint64(rng.Intn(100)), DCR), Conv(A, USD, 1000, FCT))
+	b.TxE(114, -3, "a transfer, then a conversion into pFCT", alice, Xfer(A, USD, 777, Key("bob", 0).FAAddress()), Conv(A, PEG, 1000, FCT))
+	b.TxE(146, -5, "second transaction converts into a small-cap asset", alice, Conv(A, USD, 1000+uint64(rng.Intn(100)), fat2.PTickerEUR), Conv(A, USD, 1000, DCR))
 	var all []uint32
 	for _, act := range []uint32{112, 120, 132, 144, 152} {
 		all = append(all, act-1, act, act+1)
